@@ -45,6 +45,9 @@ CLAIMED = {
     "C15": ("runtime monitoring: boundary recorder on augment() for sampled/all subsets of overridden components; trajectory checker on Option.run_on; Option.run_on wrapped as called by SemiMarkovDecisionProcess.run_simulations to capture its own simulations, outcome distribution recomputed from the captures with the base discount; sub-task plan vs reference solution",
             "Held-on-K-executions over generated base MDPs, override subsets, options, step limits and seeds. Exploration: all-inputs/all-histories property.",
             "trusts mon/ref/mdp.py for the sub-task solution; roll-out step validity itself is C14's subject", "§4 C15"),
+    "C16": ("runtime monitoring: boundary recorder on MultichainPolicyIteration.plan_on gated on `converged`; oracle = reference V* (gamma<1) / optimal multichain gain from Puterman's LP via scipy HiGHS (gamma=1) and exact evaluation (value or gain) of the returned stochastic policy",
+            "Held-on-K-executions over generated discounted and average-reward MDPs (unichain, multichain, with absorbing states). Exploration: all-inputs property.",
+            "trusts scipy.optimize.linprog and mon/ref/{mdp,gain}.py; tolerance 1e-6*scale (normal equations)", "§4 C16"),
 }
 
 PENDING_REASON = "check not built yet in this round (design in DESIGN.md §4); not claimed until its monitor exists and is silent on the unchanged tree"
